@@ -249,6 +249,35 @@ def run : Nat → List Nat → Sys → Sys
       | some s' => run fuel choices.tail s'
       | none => s
 
+/-! ### the `wait` built-in: job table and operands
+
+  `JobList` as far as `wait` needs it: `jobs` = the pids (child indices) registered as jobs and not yet
+  removed.  The recorded state of a job is the last state `JobList::update_status` received, and every
+  result of `system.wait` is passed to it (`wait_for_subshell`, `update_all_subshell_statuses`,
+  `wait_for_any_job_or_trap`), so the recorded state of job `i` is the `log` entry of child `i`. -/
+
+/-- an operand of `wait` (`JobSpec`): a process ID, or a job ID that names no job (`%7`) -/
+inductive Operand where
+  | pid (i : Nat)
+  | jobId
+  deriving DecidableEq, Repr
+
+/-- `search::resolve`: `jobs.find_by_pid(pid)` / `FindError::NotFound → Ok(None)`.  All operands are
+    resolved before the first one is awaited (`Command::execute`). -/
+def resolve (jobs : List Nat) : Operand → Option Nat
+  | .pid i => if i ∈ jobs then some i else none
+  | .jobId => none
+
+/-- `status::job_status(index)` applied to the job list: `none` = `Continue` (still running), `some` =
+    `Break`: the job is gone (`jobs.get(index) = None`, removed by an earlier operand) → `NOT_FOUND`;
+    the job has finished → its status, and the job is removed. -/
+def jobStatus (jobs : List Nat) (log : List (Nat × Result)) (i : Nat) : Option (WaitRes × List Nat) :=
+  if i ∈ jobs then
+    match log.find? (fun e => e.1 == i) with
+    | some (_, r) => some (.got i r, jobs.erase i)
+    | none => none
+  else some (.echild, jobs)
+
 /-! ### exit statuses -/
 
 /-- `ExitStatus::from(ProcessResult)`: exited → status, signaled → 128 + 256 + signal number -/
